@@ -168,7 +168,7 @@ def split_keys(data):
     return out
 
 
-def run_history(hist, paste_threshold=8, final_drain=True):
+def run_history(hist, paste_threshold=8, final_drain=True, pre=None, nostart=False):
     """hist: list of actions {"k": arrive|unget|trig|sched|tsappend|tswrite|tscall|sigint|tick|req, ...}.
     Returns the recorded trace {"paste": threshold or -1, "ev": [...]}"""
     import curtsies.input as cinput
@@ -193,7 +193,12 @@ def run_history(hist, paste_threshold=8, final_drain=True):
     old_handler = signal.getsignal(signal.SIGINT)
     rec = env.events
     try:
-        inp = cinput.Input(in_stream=stream, keynames="bytes", paste_threshold=paste_threshold, sigint_event=True)
+        if pre:
+            # typed ahead: these bytes are in the terminal's input queue before the Input context is entered
+            os.write(stream.master, bytes(pre))
+            rec.append({"k": "arrive", "bytes": list(pre), "keys": split_keys(bytes(pre))})
+        inp = cinput.Input(in_stream=stream, keynames="bytes", paste_threshold=paste_threshold, sigint_event=True,
+                           disable_terminal_start_stop=bool(nostart))
         inp.__enter__()
         try:
             trig = inp.event_trigger(Ev)
